@@ -1,4 +1,5 @@
 import Driver.Util
+import Driver.Conc.OOM
 /-! package `Conc` (see CONVENTIONS.md): register components in `step`.
 `cfg` lines this package cares about may be matched here too (they must answer "ok");
 every package sees every `cfg` line. -/
@@ -11,6 +12,7 @@ structure St where
 /-- `none` = not a component of this package. -/
 def step (st : St) (toks : List String) : Option (St × String) :=
   match toks with
+  | "oom" :: args => some (st, OOM.step args)
   | _ => none
 
 /-- `cfg` lines are broadcast to every package. -/
